@@ -361,6 +361,29 @@ def rule_collect_reentry(ctx):
             r.violate(UNPIN, "reentry", "collect is reached without the re-entrancy flag having been tested clear and set "
                       "(tested=%s, set=%s): an unpin inside a deferred destructor starts a nested collection" % (tested, armed),
                       p.events[ci[0]].loc())
+    # the re-entrancy flag is per participant, and at thread tear-down every cs() in a destructor registers a fresh one
+    # that is finalized when its guard drops: finalize itself must therefore never schedule a collection, or each
+    # dying participant collects inside the collection that made it die
+    from .rules_ebr import FINALIZE, P as _P
+    SCHED = _P + "Local::schedule_collection"
+    g = call_graph(prog)
+    reach, work = set(), [FINALIZE]
+    while work:
+        v = work.pop()
+        if v in reach:
+            continue
+        reach.add(v)
+        work.extend(x for x in g.get(v, ()) if x not in (UNPIN,))
+    ok = SCHED not in reach and not any(
+        e.kind == "call" and e.ntarget == "std::cell::Cell::set" and "Local.must_collect" in show(e.args[0]) and const_of(e.args[1]) == 1
+        for f_ in reach if f_ in prog.bodies and f_.startswith(_P + "Local::") for p in ctx.ex.paths(prog.body(f_)) for e in p.events)
+    r.instance("Local::finalize does not schedule a collection", ok)
+    r.functions.add(FINALIZE)
+    if not ok:
+        r.violate(FINALIZE, "finalize-schedules", "finalize (through %s) schedules a collection: the unpin inside finalize then "
+                  "collects on the dying participant - at thread tear-down every cs() in a destructor registers a fresh "
+                  "participant, so collections nest once per expired bag, each restarting the depth count at 0"
+                  % sorted(x.split("::")[-1] for x in reach if x != FINALIZE)[:4], prog.body(FINALIZE).loc(0))
     # writers of the flag
     nw = 0
     for name, body in sorted(prog.bodies.items()):
